@@ -645,3 +645,11 @@ mod proptests {
         }
     }
 }
+
+#[cfg(decaf377_verif)]
+impl Element {
+    /// Verification-only read access to the internal extended coordinates (X, Y, Z, T).
+    pub fn verif_xyzt(&self) -> [Fq; 4] {
+        [self.x, self.y, self.z, self.t]
+    }
+}
